@@ -11,7 +11,7 @@ def run(ctx):
     import corr_engine as ce
     rng = random.Random(ctx["seed"] + 77)
     cases = []
-    for _ in range(60 if ctx["tier"] == "quick" else 1500):
+    for _ in range(60 * nv.boost("engine") if ctx["tier"] == "quick" else 1500):
         p, theme = ce.gen_problem(rng)
         if len(p.props) < 2:
             continue
